@@ -194,9 +194,13 @@ fn fp_o3(family: &str, what: &str, p: &Pair) -> String {
 /// * the cast of the hidden values themselves fails in strict mode (dictionary values, list / struct / map
 ///   children, bytes outside a binary slice are converted wholesale)  -> one class per source kind;
 /// * anything else (wrong values, nulls turning into values, offset arithmetic) -> (layout, source kind, target kind).
-fn layout_fingerprint(p: &Pair, what: &str, layout: Layout) -> String {
+fn layout_fingerprint(p: &Pair, what: &str, msg: &str, layout: Layout) -> String {
     use DataType::*;
     let src = &p.src;
+    if msg.contains("Invalid range") && matches!(through_encoding(&p.dst), FixedSizeList(_, _)) {
+        // List -> FixedSizeList reads the child from position 0 instead of the first offset
+        return format!("c13:layout:{}:list->fsl", layout.name());
+    }
     if let (FixedSizeList(_, 1), false) = (through_encoding(src), is_nested(through_encoding(&p.dst))) {
         // flattening a single-element list ignores the list's own validity: one class whatever the symptom
         return format!("c13:layout:{}:fsl->value", layout.name());
@@ -385,6 +389,18 @@ impl Pair {
             }
         }
         out
+    }
+
+    /// findings that exist only in a non-compact layout get the layout-class fingerprint
+    pub fn classify(&self, fs: Vec<Finding>, compact_clean: bool, layout: Layout) -> Vec<Finding> {
+        fs.into_iter()
+            .map(|mut f| {
+                if compact_clean && layout != Layout::Compact && !f.what.is_empty() {
+                    f.fp = layout_fingerprint(self, f.what, &f.msg, layout);
+                }
+                f
+            })
+            .collect()
     }
 
     /// O1 on the empty and the all-null column in every layout and both modes
@@ -614,25 +630,25 @@ pub fn case_json(p: &Pair, what: &str, codes: &[i32], layout: Layout) -> Value {
     })
 }
 
-/// all columns of length 1..=nmax; lengths <= 2 range over every letter, longer ones over the core letters
-fn columns(p: &Pair, nmax: usize) -> Vec<Vec<i32>> {
+/// All columns of length 1..=nmax. Lengths <= `full_upto` range over every letter (+ null); longer ones over
+/// the core letters: null + up to 4 castable letters (first, two middle, last) + up to 3 failing letters.
+fn columns(p: &Pair, nmax: usize, full_upto: usize) -> Vec<Vec<i32>> {
     let l = p.letters.len() as i32;
     let all: Vec<i32> = (-1..l).collect();
-    // core: null + up to 3 castable letters (first, middle, last) + up to 2 failing letters (first, last)
     let ok: Vec<i32> = (0..l).filter(|k| matches!(p.s[*k as usize], Row1::Ok(..))).collect();
     let er: Vec<i32> = (0..l).filter(|k| matches!(p.s[*k as usize], Row1::Err(..))).collect();
     let mut core = vec![-1];
     if !ok.is_empty() {
-        core.extend([ok[0], ok[ok.len() / 2], ok[ok.len() - 1]]);
+        core.extend([ok[0], ok[ok.len() / 3], ok[2 * ok.len() / 3], ok[ok.len() - 1]]);
     }
     if !er.is_empty() {
-        core.extend([er[0], er[er.len() - 1]]);
+        core.extend([er[0], er[er.len() / 2], er[er.len() - 1]]);
     }
     core.sort();
     core.dedup();
     let mut out = vec![];
     for n in 1..=nmax {
-        let alpha = if n <= 2 || all.len() <= core.len() + 2 { &all } else { &core };
+        let alpha = if n <= full_upto || all.len() <= core.len() { &all } else { &core };
         let total = (alpha.len() as u64).pow(n as u32);
         for mut t in 0..total {
             let mut c = Vec::with_capacity(n);
@@ -646,7 +662,7 @@ fn columns(p: &Pair, nmax: usize) -> Vec<Vec<i32>> {
     out
 }
 
-pub fn run_pair(gi: usize, gj: usize, g: &[DataType], nmax: usize, cap: usize, order_base: u64, st: &mut Stats) {
+pub fn run_pair(gi: usize, gj: usize, g: &[DataType], nmax: usize, full_upto: usize, cap: usize, order_base: u64, st: &mut Stats) {
     let (src, dst) = (&g[gi], &g[gj]);
     let sub = "matrix";
     if !can_cast_types(src, dst) {
@@ -738,7 +754,7 @@ pub fn run_pair(gi: usize, gj: usize, g: &[DataType], nmax: usize, cap: usize, o
     let mut nontrivial = 0u64;
     if !unsupported_letter {
         let mut cols = vec![vec![]];
-        cols.extend(columns(&p, nmax));
+        cols.extend(columns(&p, nmax, full_upto));
         for codes in &cols {
             let fc = p.eval_column(codes, Layout::Compact);
             n_eval += 2;
@@ -749,10 +765,7 @@ pub fn run_pair(gi: usize, gj: usize, g: &[DataType], nmax: usize, cap: usize, o
             for layout in [Layout::Sliced, Layout::Garbage] {
                 let fs = p.eval_column(codes, layout);
                 n_eval += 2;
-                for mut f in fs {
-                    if compact_clean && !f.what.is_empty() {
-                        f.fp = layout_fingerprint(&p, f.what, layout);
-                    }
+                for f in p.classify(fs, compact_clean, layout) {
                     emit(st, f, "column", codes, layout);
                 }
             }
@@ -772,13 +785,15 @@ pub fn run_pair(gi: usize, gj: usize, g: &[DataType], nmax: usize, cap: usize, o
 pub fn run(ctx: &Ctx, st: &mut Stats) {
     let g = grid();
     let n = g.len() as u64;
-    let nmax = ctx.pick(3, 4);
+    let nmax = ctx.pick(3, 5);
+    let full_upto = ctx.pick(2, 3);
     let cap = letter_cap(ctx.quick());
+    st.extra.insert("matrix_bounds".into(), json!({"max_column_length": nmax, "all_letters_up_to_length": full_upto, "letter_cap": cap, "layouts": ["compact", "sliced", "garbage-under-nulls"], "safe": [true, false]}));
     st.extra.insert("grid_types".into(), json!(g.iter().map(|d| d.to_string()).collect::<Vec<_>>()));
     st.extra.insert("grid_pairs".into(), json!(n * n));
     let r = par_for(ctx, "matrix", n * n, 4, |idx, st| {
         let (gi, gj) = ((idx / n) as usize, (idx % n) as usize);
-        run_pair(gi, gj, &g, nmax, cap, idx << 24, st);
+        run_pair(gi, gj, &g, nmax, full_upto, cap, idx << 24, st);
     });
     st.merge(r);
 }
@@ -802,7 +817,10 @@ pub fn replay(case: &Value) {
             "o1" => p.eval_o1(),
             "letter" => p.eval_letter(codes[0] as usize),
             "inverse" => p.eval_inverse(codes[0] as usize),
-            _ => p.eval_column(&codes, layout),
+            _ => {
+                let compact_clean = p.eval_column(&codes, Layout::Compact).is_empty();
+                p.classify(p.eval_column(&codes, layout), compact_clean, layout)
+            }
         };
         println!("column: {}  layout: {}", show_col(&p.column(&codes)), layout.name());
         for (k, x) in p.letters.iter().enumerate() {
